@@ -64,6 +64,10 @@ SPECS = {
                          ret='List PyFloat', raises=True, elementwise=False,
                          externals={'np.nanmax': ('nanmax', 'List PyFloat → Rat', ('List PyFloat',), 'Rat'),
                                     'np.nanmin': ('nanmin', 'List PyFloat → Rat', ('List PyFloat',), 'Rat')}),
+    # model selection from the mixture scores (mode 'prob' goes through exponentials: scores2nrl is a parameter)
+    'best_gmm': dict(file='layer.py', params={'abics': 'List Rat', 'mode': 'String', 'min_prob': 'Rat', 'delta_mul_gain': 'Rat'},
+                     ret='Int', raises=True, elementwise=False,
+                     externals={'scores2nrl': ('scores2nrl', 'List Rat → List Rat', ('List Rat',), 'List Rat')}),
     '_ncd_or_nsc': dict(file='data.py', cls='CeiloChunk', params={}, attrs={'_clouds_above_msa_buffer': 'Bool'},
                         ret='String', raises=False, elementwise=False, lean_name='ncd_or_nsc'),
     # a method: `self.prms['KEY']` becomes the parameter KEY (the chunk's own parameter snapshot)
@@ -137,6 +141,10 @@ class Tr:
                 raise Unsupported(n, f'name {n.id} is not a local')
             if env[n.id] == 'None':
                 return 'none', 'None'
+            if env[n.id].startswith('Unbound? '):
+                v = self.tmp()
+                binds.append((v, f'unboundLocal {n.id}'))
+                return v, env[n.id][len('Unbound? '):]
             return n.id, env[n.id]
         if isinstance(n, ast.UnaryOp):
             c, t = self.expr(n.operand, env, binds)
@@ -322,6 +330,11 @@ class Tr:
             return self.to_int(args[0], env, binds, n)
         if isinstance(f, ast.Attribute) and f.attr == 'astype' and len(args) == 1 and dotted(args[0]) == 'int':
             return self.to_int(f.value, env, binds, n)
+        if name == 'range' and len(args) == 1 and not n.keywords:
+            c, t = self.expr(args[0], env, binds)
+            if t != 'Int':
+                raise Unsupported(n, f'range of {t}')
+            return f'(pyRange {c})', 'List Int'
         if name == 'len' and len(args) == 1:
             c, t = self.expr(args[0], env, binds)
             if not t.startswith('List'):
@@ -430,6 +443,23 @@ class Tr:
             a = self.block(list(s.body if is_none else s.orelse) + rest, env_none, ind + 1)
             b = self.block(list(s.orelse if is_none else s.body) + rest, env_some, ind + 1)
             return f'(match {x} with\n{pad}  | none =>\n{pad}    {a}\n{pad}  | some {x} =>\n{pad}    {b})'
+        if isinstance(s, ast.If) and not s.orelse and len(s.body) == 1 and isinstance(s.body[0], ast.Assign) \
+                and len(s.body[0].targets) == 1 and isinstance(s.body[0].targets[0], ast.Name) \
+                and s.body[0].targets[0].id not in env:
+            # a local bound in one branch only: `Option`, and every later read fails with UnboundLocalError when unbound
+            binds = []
+            c, t = self.expr(s.test, env, binds)
+            if t != 'Bool':
+                raise Unsupported(s, f'condition of type {t}')
+            b2 = []
+            vc, vt = self.expr(s.body[0].value, env, b2)
+            if b2 or vt in ('List ?', 'None'):
+                raise Unsupported(s, 'conditionally bound local with a fallible / untyped value')
+            x = s.body[0].targets[0].id
+            env = dict(env)
+            env[x] = 'Unbound? ' + vt
+            body = self.block(rest, env, ind)
+            return self.wrap(binds, f'let {x} : Option ({vt}) := if {c} then some {vc} else none;\n{pad}{body}')
         if isinstance(s, ast.If):
             binds = []
             c, t = self.expr(s.test, env, binds)
@@ -499,45 +529,66 @@ class Tr:
         pad = '  ' * ind
         if s.orelse or not isinstance(s.target, ast.Name):
             raise Unsupported(s, 'for loop with else / tuple target')
+        fallible = False
         for sub in ast.walk(s):
-            if isinstance(sub, (ast.Break, ast.Continue, ast.Return, ast.Raise)):
-                raise Unsupported(sub, 'break/continue/return/raise inside a for loop')
+            if isinstance(sub, (ast.Break, ast.Continue, ast.Return)):
+                raise Unsupported(sub, 'break/continue/return inside a for loop')
+            if isinstance(sub, ast.Raise) or (isinstance(sub, ast.Subscript) and not isinstance(sub.slice, ast.Slice)
+                                              and not self.elementwise):
+                fallible = True
+            if isinstance(sub, ast.Name) and isinstance(sub.ctx, ast.Load) and env.get(sub.id, '').startswith('Unbound? '):
+                fallible = True
+        if fallible and not self.raises:
+            raise Unsupported(s, 'fallible loop in a function declared not to raise')
         binds = []
         ic, it = self.expr(s.iter, env, binds)
         if not it.startswith('List ') or it == 'List ?':
             raise Unsupported(s, f'iteration over {it}')
         elt = it[len('List '):]
         assigned = sorted({t.id for sub in ast.walk(s) for t in assigned_names(sub)} - {s.target.id})
-        for a in assigned:
-            if a not in env:
-                raise Unsupported(s, f'{a} is first assigned inside the loop')
-        if not assigned:
+        state = [a for a in assigned if a in env]            # locals first bound inside the loop are body-local
+        if not state:
             raise Unsupported(s, 'loop without state')
-        sty = ' × '.join(env[a] for a in assigned)
-        unpack = ''.join(f'let {a} : {env[a]} := st{proj(i, len(assigned))}\n{pad}    ' for i, a in enumerate(assigned))
+        sty = ' × '.join(env[a] for a in state)
+        unpack = ''.join(f'let {a} : {env[a]} := st{proj(i, len(state))};\n{pad}    ' for i, a in enumerate(state))
         benv = dict(env)
         benv[s.target.id] = elt
-        tup = '(' + ', '.join(assigned) + ')'
-        body = LoopBody(self, tup).block(list(s.body), benv, ind + 2)
-        after = ''.join(f'let {a} : {env[a]} := st{proj(i, len(assigned))}\n{pad}' for i, a in enumerate(assigned))
+        tup = '(' + ', '.join(state) + ')'
+        body = LoopBody(self, tup, fallible).block(list(s.body), benv, ind + 2)
+        after = ''.join(f'let {a} : {env[a]} := st{proj(i, len(state))};\n{pad}' for i, a in enumerate(state))
         cont = self.block(rest, env, ind)
+        if fallible:
+            return self.wrap(binds,
+                             f'Except.bind (List.foldlM (fun (st : {sty}) ({s.target.id} : {elt}) =>\n{pad}    {unpack}{body})\n'
+                             f'{pad}  {tup} {ic}) (fun st =>\n{pad}{after}{cont})')
         return self.wrap(binds,
                          f'let st : {sty} := List.foldl (fun (st : {sty}) ({s.target.id} : {elt}) =>\n{pad}    {unpack}{body})\n'
-                         f'{pad}  {tup} {ic}\n{pad}{after}{cont}')
+                         f'{pad}  {tup} {ic};\n{pad}{after}{cont}')
 
 
 class LoopBody:
     """Statement translation inside a loop body: the 'continuation' at the end is the state tuple."""
 
-    def __init__(self, tr, tup):
-        self.tr, self.tup = tr, tup
+    def __init__(self, tr, tup, fallible=False):
+        self.tr, self.tup, self.fallible = tr, tup, fallible
+
+    def wrap(self, binds, body):
+        for v, code in reversed(binds):
+            if not self.fallible:
+                raise Unsupported(None, 'fallible expression inside a loop')
+            body = f'Except.bind ({code}) (fun {v} => {body})'
+        return body
 
     def block(self, stmts, env, ind):
         pad = '  ' * ind
         tr = self.tr
         if not stmts:
-            return self.tup
+            return f'(Except.ok {self.tup})' if self.fallible else self.tup
         s, rest = stmts[0], stmts[1:]
+        if isinstance(s, ast.Raise) and self.fallible:
+            exc = s.exc
+            cls = dotted(exc.func) if isinstance(exc, ast.Call) else dotted(exc)
+            return '(Except.error (AmpyErr.ampy ""))' if cls == 'AmpycloudError' else f'(Except.error (AmpyErr.other "{cls}"))'
         if isinstance(s, ast.Expr):
             if isinstance(s.value, ast.Constant):
                 return self.block(rest, env, ind)
@@ -568,23 +619,21 @@ class LoopBody:
                     raise Unsupported(s, 'assignment target in loop')
                 name, val = s.targets[0].id, s.value
             vc, vt = tr.expr(val, env, binds)
-            if binds:
-                raise Unsupported(s, 'fallible expression inside a loop')
             if name in env:
                 vc, vt = tr.coerce(vc, vt, env[name], s), env[name]
             elif vt in ('List ?', 'None'):
                 raise Unsupported(s, f'cannot infer the type of {name}')
             env = dict(env)
             env[name] = vt
-            return f'let {name} : {vt} := {vc}\n{pad}{self.block(rest, env, ind)}'
+            return self.wrap(binds, f'let {name} : {vt} := {vc};\n{pad}{self.block(rest, env, ind)}')
         if isinstance(s, ast.If):
             binds = []
             c, t = tr.expr(s.test, env, binds)
-            if binds or t != 'Bool':
+            if t != 'Bool':
                 raise Unsupported(s, 'loop condition')
             a = self.block(list(s.body) + rest, dict(env), ind + 1)
             b = self.block(list(s.orelse) + rest, dict(env), ind + 1)
-            return f'(if {c} then\n{pad}  {a}\n{pad}else\n{pad}  {b})'
+            return self.wrap(binds, f'(if {c} then\n{pad}  {a}\n{pad}else\n{pad}  {b})')
         if isinstance(s, ast.Pass):
             return self.block(rest, env, ind)
         raise Unsupported(s, f'statement {type(s).__name__} in loop')
